@@ -122,9 +122,20 @@ func vh_C18_L4_read_deadline() {
 	}
 	s := a.streams[3]
 	vassert(s != nil, "stream exists")
-	vassert(s.SetReadDeadline(time.Now().Add(time.Millisecond)) == nil, "deadline armed")
-	vassert(len(vSpawned) == 1 && s.readTimeoutCancel != nil, "the deadline is pending")
 	buf := make([]byte, 8)
+	if !hasMsg && vPick(2) == 1 {
+		// a reader is already blocked on the empty stream when a deadline that has already
+		// passed is set (the SetReadDeadline(time.Now()) idiom): it must be released
+		vCondPark(s.readNotifier, 1)
+		vassert(s.SetReadDeadline(time.Now().Add(-time.Second)) == nil, "deadline in the past accepted")
+		vRunSpawned()
+		vassert(errors.Is(s.readErr, ErrReadDeadlineExceeded), "the deadline error is posted")
+		vassert(vCondParked(s.readNotifier) == 0, "a reader blocked before the deadline was set is released")
+		vcover("end")
+		return
+	}
+	vassert(s.SetReadDeadline(time.Now().Add(20*time.Millisecond)) == nil, "deadline armed")
+	vassert(len(vSpawned) == 1 && s.readTimeoutCancel != nil, "the deadline is pending")
 	switch vPick(5) {
 	case 0: // the deadline simply passes
 		vassert(vRunSpawned() == 1, "deadline goroutine ran")
@@ -173,7 +184,9 @@ func vh_C18_L4_read_deadline() {
 		vRunSpawned()
 		vassert(errors.Is(s.readErr, want) && !errors.Is(s.readErr, ErrReadDeadlineExceeded), "a deadline that passes after end-of-file or teardown does not replace that error")
 		if hasMsg {
-			n, _, rerr := s.ReadSCTP(buf)
+			n, _, rerr := s.ReadSCTP(buf[:1])
+			vassert(n == 2 && errors.Is(rerr, io.ErrShortBuffer), "a too-small read of data received before the end reports the short buffer, not the terminal error")
+			n, _, rerr = s.ReadSCTP(buf)
 			vassert(n == 2 && rerr == nil, "data received before the end is still read first")
 		}
 		vMustNotBlock("a read after end-of-file returns")
@@ -185,6 +198,8 @@ func vh_C18_L4_read_deadline() {
 	}
 	// the deadline has passed: reads return instead of blocking, data first
 	if hasMsg {
+		ns, _, serr := s.ReadSCTP(buf[:1])
+		vassert(ns == 2 && errors.Is(serr, io.ErrShortBuffer), "a too-small read after the deadline still reports the short buffer and keeps the message")
 		vMustNotBlock("a read with data available returns")
 		n, _, rerr := s.ReadSCTP(buf)
 		vMayBlock()
